@@ -16,7 +16,7 @@ func genHist(r *vh.Rand, prop string, idx int) Hist {
 	c := stg.Conf{
 		TimeUnitSec:        r.Pick64([]int64{3600, 3600, 86400, 7200, 1000}),
 		ValidatorReward:    pickF(r, []float64{0.025, 0.025, 0.1, 0, 0.5, 1.0}),
-		BlobberSlash:       pickF(r, []float64{0.1, 0.1, 0, 0.5}),
+		BlobberSlash:       pickF(r, []float64{0.1, 0, 0.1, 0, 0.5}),
 		CancellationCharge: pickF(r, []float64{0.2, 0.2, 0, 0.5, 1.0}),
 		MaxWritePrice:      r.PickU64([]uint64{100e10, 100e10, 4e9}),
 		MinWritePrice:      0,
@@ -759,6 +759,144 @@ func (g *Gen) Script(run *Run) *Op {
 		return o
 	}
 	switch g.script {
+	case "fail-then-replace-alive":
+		// uploads, challenges that fail or expire after the last passed one (LatestSuccessful < LatestFinalized),
+		// then the owner replaces that alive blobber: the finalization penalty must come back to the write pool
+		switch {
+		case g.step == 0:
+			return newAlloc()
+		case g.step <= 3:
+			return upload(g.step-1, false)
+		case g.step <= 11:
+			l, a := firstOpen()
+			if a == nil {
+				break
+			}
+			behind := false
+			for _, d := range a.BAs {
+				if d.LF > d.LS && d.CPIV > 0 {
+					behind = true
+				}
+			}
+			if behind && g.step >= 6 && r.Chance(1, 2) {
+				g.step = 11 // go on to the replacement
+			} else {
+				if len(a.OpenCh) > 0 && r.Chance(2, 3) {
+					o := &Op{K: "chalresp", Dt: r.Pick64([]int64{1, 5, 30}), A: l, N: int64(r.Intn(4))}
+					if !r.Chance(1, 4) {
+						o.X |= xFailTickets
+					}
+					return o
+				}
+				// new challenge; sometimes so many rounds later that the open ones have expired
+				return &Op{K: "genchal", Dt: r.Pick64([]int64{30, 100, 300}), Dr: r.Pick64([]int64{0, 1, 50, 800}), S: refClient}
+			}
+			fallthrough
+		case g.step == 12:
+			l, a := firstOpen()
+			if a == nil {
+				break
+			}
+			rm := -1
+			for _, d := range a.BAs {
+				bp := s.Blob[d.Blobber]
+				if !bp.Killed && !bp.Shut && (rm < 0 || (d.LF > d.LS && d.CPIV > 0)) {
+					rm = d.Blobber
+				}
+			}
+			ad := -1
+			for _, b := range r.Perm(nb) {
+				if !inAlloc(a, b) && g.eligible(s, h, b, a.BAs[0].Size) {
+					ad = b
+				}
+			}
+			if rm < 0 || ad < 0 {
+				break
+			}
+			g.step = 12
+			return &Op{K: "update", Dt: r.Pick64([]int64{5, 60}), S: a.Owner, A: l, Ad: ad + 1, Rm: rm + 1, V: r.PickU64([]uint64{0, 1e10})}
+		case g.step == 13:
+			l, a := firstOpen()
+			if a == nil {
+				break
+			}
+			return &Op{K: "cancel", Dt: 5, S: a.Owner, A: l}
+		}
+	case "upload-delete-close":
+		// data is stored for a while, then everything is deleted (UsedSize back to 0 while the challenge
+		// pool still holds the value of the elapsed time), then the allocation is closed
+		switch {
+		case g.step == 0:
+			return newAlloc()
+		case g.step <= 2:
+			return upload(g.step-1, false)
+		case g.step <= 6:
+			l, a := firstOpen()
+			if a == nil {
+				break
+			}
+			for _, d := range a.BAs {
+				if d.Used > 0 {
+					dt := r.Pick64([]int64{5, 60})
+					if g.step == 3 {
+						dt = r.Pick64([]int64{300, 600, 100}) // the wait
+					}
+					return &Op{K: "commit", Dt: dt, S: d.Blobber, A: l, B: d.Blobber, C: a.Owner, N: -d.Used}
+				}
+			}
+			g.step = 6
+			fallthrough
+		case g.step == 7:
+			l, a := firstOpen()
+			if a == nil {
+				break
+			}
+			g.step = 7
+			if r.Chance(1, 2) {
+				return &Op{K: "cancel", Dt: 5, S: a.Owner, A: l}
+			}
+			fin := a.Owner
+			if r.Chance(1, 2) {
+				fin = a.BAs[r.Intn(len(a.BAs))].Blobber
+			}
+			return &Op{K: "finalize", Dt: a.Exp - run.Now + r.Pick64([]int64{0, 1, 100}), Dr: r.Pick64([]int64{0, 10, 1000}), S: fin, A: l}
+		}
+	case "price-drop-all-extend":
+		// every blobber that holds data lowers its write price, then the owner extends:
+		// adjustChallengePool only returns tokens to the write pool
+		switch {
+		case g.step == 0:
+			return newAlloc()
+		case g.step <= 3:
+			return upload(g.step-1, false)
+		case g.step <= 7:
+			_, a := firstOpen()
+			if a == nil {
+				break
+			}
+			i := g.step - 4
+			if i < len(a.BAs) {
+				b := a.BAs[i].Blobber
+				if s.Blob[b].WP > 1 {
+					return &Op{K: "updblobber", Dt: 5, S: refWallet + b, B: b, W: r.Pick64([]int64{1, int64(s.Blob[b].WP / 10), int64(s.Blob[b].WP / 2)}) + 1}
+				}
+			}
+			g.step = 7
+			fallthrough
+		case g.step == 8:
+			l, a := firstOpen()
+			if a == nil {
+				break
+			}
+			g.step = 8
+			return &Op{K: "update", Dt: r.Pick64([]int64{5, 60, 300}), S: a.Owner, A: l, X: xExtend, V: r.PickU64([]uint64{0, 1e11, 5e11})}
+		case g.step == 9:
+			l, a := firstOpen()
+			if a == nil {
+				break
+			}
+			return &Op{K: "cancel", Dt: 5, S: a.Owner, A: l}
+		}
 	case "third-party-extend", "owner-handover":
 		// an extendable allocation, then tokens attached to an update that names another client as owner_id
 		switch g.step {
